@@ -1128,4 +1128,4 @@ def check(ctx):
     r11_lifetime_names_are_fresh(ctx)
 
 
-CLAUSE += '; PartialEq / Eq / Hash of every ADT reachable from Type are the derived ones'
+CLAUSE += ' Also: PartialEq / Eq / Hash of every ADT reachable from Type are the derived ones.'
